@@ -34,7 +34,9 @@ func c06atomic(c *an.Ctx) {
 	if persist == nil || nmf == nil {
 		return
 	}
-	isOpen := func(ci ssa.CallInstruction) bool { return an.StdCallee(ci, "os", "OpenFile") || an.StdCallee(ci, "os", "Create") }
+	isOpen := func(ci ssa.CallInstruction) bool {
+		return an.StdCallee(ci, "os", "OpenFile") || an.StdCallee(ci, "os", "Create")
+	}
 	// the write unit: the helper PersistMetadata calls to write+fsync the temp file, or
 	// PersistMetadata itself when it opens the file inline
 	wsf := c.P.Func("nsqd", "writeSyncFile")
@@ -450,10 +452,16 @@ func c06after(c *an.Ctx) {
 						} else if u, ok := f.V.(*ssa.UnOp); ok && u.Op == token.MUL {
 							fv, _ = u.X.(*ssa.FreeVar)
 						}
-						if fv == nil {
-							continue
+						var b ssa.Value
+						if fv != nil {
+							b = capturedValue(clos, fv)
 						}
-						b := capturedValue(clos, fv)
+						if b == nil {
+							// a field of a captured parameter struct (`req := notification{persist: persist, loading: …}`)
+							if sfv, fld := capturedField(f.V); sfv != nil {
+								b = capturedFieldValue(clos, sfv, fld)
+							}
+						}
 						if b == nil {
 							continue
 						}
@@ -798,6 +806,16 @@ func c06ephemeral(c *an.Ctx) {
 				if f, base := an.LoadedField(u.X); f != nil && f.Name() == "ephemeral" && an.SameValue(base, obj) {
 					good = true
 				}
+				// or the very value the constructor stored into obj.ephemeral (computed once into a local)
+				an.Instrs(fn, func(in ssa.Instruction) {
+					st, ok := in.(*ssa.Store)
+					if !ok || st.Val != u.X {
+						return
+					}
+					if fa, ok := st.Addr.(*ssa.FieldAddr); ok && an.FieldOf(fa).Name() == "ephemeral" && an.SameValue(an.Strip(fa.X), obj) {
+						good = true
+					}
+				})
 			}
 			c.Check(good, fn, "Notify persists iff durable", nc.Pos(), "", "Notify is not called with persist = !ephemeral of the announced object: ephemeral churn rewrites nsqd.dat, or durable creations are never persisted")
 		}
@@ -809,6 +827,117 @@ func c06ephemeral(c *an.Ctx) {
 
 // capturedValue: the value the enclosing function stored into the variable that closure clos captures as fv (the variable
 // is captured by reference; nil unless it is written exactly once, before the closure is made).
+// capturedField: v (a value of closure clos) is field #i of a struct variable captured from the parent – read directly
+// through the captured pointer, or through a local copy of the whole struct. Returns the captured variable and the field.
+func capturedField(v ssa.Value) (*ssa.FreeVar, int) {
+	var agg ssa.Value
+	field := -1
+	switch x := v.(type) {
+	case *ssa.UnOp:
+		if fa, ok := x.X.(*ssa.FieldAddr); ok && x.Op == token.MUL {
+			agg, field = fa.X, fa.Field
+		}
+	case *ssa.Field:
+		agg, field = x.X, x.Field
+	}
+	if agg == nil {
+		return nil, -1
+	}
+	// agg: the captured pointer itself, a load of it (struct value), or a local cell holding one copy of it
+	for i := 0; i < 3; i++ {
+		switch a := agg.(type) {
+		case *ssa.FreeVar:
+			return a, field
+		case *ssa.UnOp:
+			if a.Op != token.MUL {
+				return nil, -1
+			}
+			agg = a.X
+		case *ssa.Alloc:
+			var val ssa.Value
+			n := 0
+			for _, r := range an.Referrers(a) {
+				if st, ok := r.(*ssa.Store); ok && st.Addr == ssa.Value(a) {
+					val = st.Val
+					n++
+				}
+			}
+			if n != 1 {
+				return nil, -1
+			}
+			agg = val
+		default:
+			return nil, -1
+		}
+	}
+	return nil, -1
+}
+
+// capturedFieldValue: what the parent stored into field #field of the struct variable it hands to clos as fv (nil unless
+// there is exactly one such store and the closure does not write the variable).
+func capturedFieldValue(clos *ssa.Function, fv *ssa.FreeVar, field int) ssa.Value {
+	parent := clos.Parent()
+	if parent == nil {
+		return nil
+	}
+	idx := -1
+	for i, f := range clos.FreeVars {
+		if f == fv {
+			idx = i
+		}
+	}
+	if idx < 0 {
+		return nil
+	}
+	var out ssa.Value
+	an.Instrs(parent, func(in ssa.Instruction) {
+		mc, ok := in.(*ssa.MakeClosure)
+		if !ok || mc.Fn != ssa.Value(clos) || idx >= len(mc.Bindings) {
+			return
+		}
+		al, ok := mc.Bindings[idx].(*ssa.Alloc)
+		if !ok {
+			return
+		}
+		n := 0
+		var val ssa.Value
+		for _, r := range an.Referrers(al) {
+			switch x := r.(type) {
+			case *ssa.Store:
+				if x.Addr == ssa.Value(al) {
+					n += 2 // whole-struct store: give up
+				}
+			case *ssa.FieldAddr:
+				if x.Field != field {
+					continue
+				}
+				for _, rr := range an.Referrers(x) {
+					if st, ok := rr.(*ssa.Store); ok && st.Addr == ssa.Value(x) {
+						val = st.Val
+						n++
+					}
+				}
+			}
+		}
+		for _, r := range an.Referrers(fv) {
+			if _, ok := r.(*ssa.Store); ok {
+				n += 2
+			}
+			if fa, ok := r.(*ssa.FieldAddr); ok {
+				for _, rr := range an.Referrers(fa) {
+					if st, ok := rr.(*ssa.Store); ok && st.Addr == ssa.Value(fa) {
+						n += 2
+					}
+				}
+			}
+		}
+		if n == 1 {
+			out = val
+		}
+	})
+	return out
+}
+
 func capturedValue(clos *ssa.Function, fv *ssa.FreeVar) ssa.Value {
 	parent := clos.Parent()
 	if parent == nil {
